@@ -3,7 +3,7 @@ the iterable is resolved BEFORE the loop's own variables are declared, as the co
 UNIT = dict(
   name='resolverd',
   properties=['C02', 'C15'],
-  items=[('laythe_vm/src/compiler/resolver.rs', [("impl<'a, 'src> Resolver<'a, 'src>", ['scope', 'for_', 'while_', 'map', 'call', 'ternary', 'binary', 'unary', 'index'])])],
+  items=[('laythe_vm/src/compiler/resolver.rs', [("impl<'a, 'src> Resolver<'a, 'src>", ['scope', 'for_', 'while_', 'map', 'call', 'ternary', 'binary', 'unary', 'index', 'assign', 'send', 'assign_binary', 'launch', 'return_', 'raise', 'if_'])])],
   rewrites=[
     ('R5', 'kind:implhdr', dict(pat=r"^impl<'a, 'src> Resolver<'a, 'src> \{", rep='impl Resolver {', regex=True, count=1)),
     ('R5', 'Resolver::*', dict(pat=r"<'src>", rep='', regex=True, optional=True)),
@@ -13,9 +13,11 @@ UNIT = dict(
     # three statements R17 inlines (contract: external, see contracts.vrs)
     ('R4', 'Resolver::scope', dict(pat='pub fn scope(&mut self, cb: impl FnOnce(&mut Self)) -> SymbolTable {\n    self.begin_scope();\n    cb(self);\n    self.end_scope()\n  }',
                                    rep='pub fn scope(&mut self, cb: ScopeBody) -> SymbolTable {\n    self.begin_scope();\n    cb.verif_run(self);\n    self.end_scope()\n  }', count=1)),
-    ('R17', 'Resolver::for_'), ('R17', 'Resolver::while_'),
+    ('R17', 'Resolver::for_'), ('R17', 'Resolver::while_'), ('R17', 'Resolver::if_'), ('R17', 'Resolver::if_'),
     # the resolver annotates the AST in place (`&mut`); the model's stubs only log the node's identity and take `&`
-    ('R6', 'Resolver::*', dict(pat=r'self\.(expr|block)\(&mut ', rep=r'self.\1(&', regex=True, optional=True)),
+    ('R6', 'Resolver::*', dict(pat=r'self\.(expr|block|atom)\(&mut ', rep=r'self.\1(&', regex=True, optional=True)),
+    ('R6', 'Resolver::return_', dict(pat='if let Some(v) = &mut return_.value {', rep='if let Some(v) = &return_.value {', count=1)),
+    ('R6', 'Resolver::if_', dict(pat='if let Some(else_) = &mut if_.else_ {', rep='if let Some(else_) = &mut if_.else_ {', count=1)),
     # R13: loops over the children of a node -> index loops
     ('R13', 'Resolver::map', dict(pat=r'for \((\w+), (\w+)\) in map\.entries\.iter_mut\(\) \{', rep=r'let mut verif_i: usize = 0;\n    while verif_i < map.entries.len() {\n      let \1 = &map.entries[verif_i].0;\n      let \2 = &map.entries[verif_i].1;', regex=True, count=1)),
     ('R13', 'Resolver::map', dict(pat=r'(self\.expr\(value\);\s*)\}', rep=r'\1  verif_i += 1;\n    }', regex=True, optional=True)),
